@@ -157,7 +157,7 @@ func runDriver(driver string, rf replayFile) (string, string, bool, error) {
 	pkgDir := strings.TrimSpace(strings.TrimPrefix(first, "// pkgdir:"))
 	sc, _ := json.Marshal(rf)
 	src := strings.Replace(tmpl, "{{SCENARIO}}", strings.ReplaceAll(string(sc), "`", "'"), 1)
-	work := filepath.Join(verifDir, "out", "replaywork")
+	work := filepath.Join(outRoot, "replaywork")
 	os.MkdirAll(work, 0o755)
 	testFile := filepath.Join(work, "zz_verif_replay_"+sanitize(driver)+"_test.go")
 	if err := os.WriteFile(testFile, []byte(src), 0o644); err != nil {
